@@ -18,7 +18,7 @@ sys.path.insert(0, os.path.join(vlib.VERIF, "translators"))
 
 TSAN_ENV = {"TSAN_OPTIONS": "halt_on_error=0 report_signal_unsafe=0 exitcode=0 second_deadlock_stack=0 history_size=4",
             "TZ": "UTC"}
-WRAP = ["-Wl,--wrap=fcntl", "-Wl,--wrap=fcntl64"]
+WRAP = ["-Wl,--wrap=fcntl", "-Wl,--wrap=fcntl64", "-Wl,--wrap=close"]
 LHA_UU = "libarchive/test/test_read_format_lha_lh6.lzh.uu"
 Z_UU = "libarchive/test/test_compat_mac-1.tar.Z.uu"
 
@@ -34,6 +34,7 @@ QUICK = [
     ("disk", (2, 4), 300, "disk"),                             # static lst
     ("disk-old-kernel", (2, 4), 300, "diskold"),               # can_dupfd_cloexec
     ("disk-write", (4,), 100, "diskwr,entry"),
+    ("disk-shrink", (2, 4), 40, "diskshrink,disk,ustar"),        # a file truncated under the reader: abort path, stale descriptor
     ("version", (2,), 200, "version"),                         # static str (crashes)
     ("mix", (8,), 100, "ustar,wrzip,cpio,disk,entry,newc,zip,Z"),
 ]
@@ -145,13 +146,16 @@ class Harness:
             rc, out, err = 124, (ex.stdout or b"").decode("utf-8", "replace"), "TIMEOUT after %ds" % timeout
         subprocess.run(["rm", "-rf", wd])
         digests = {}
+        badclose = 0
         for l in out.split("\n"):
             f = l.split()
             if len(f) == 6 and f[0] == "D":
                 digests[(f[1], int(f[3]))] = (f[4], int(f[5]))
+            if len(f) == 3 and f[0] == "X" and f[1] == "badclose":
+                badclose = int(f[2])
         cmd = "TSAN_OPTIONS='%s' TZ=UTC harness/threads(tsan) %s %d %d %s <workdir> <%s decoded> <%s decoded>" % (
             TSAN_ENV["TSAN_OPTIONS"], mode, k, iters, workloads, LHA_UU, Z_UU)
-        return dict(rc=rc, digests=digests, stderr=err, secs=time.time() - t0, cmd=cmd,
+        return dict(rc=rc, digests=digests, badclose=badclose, stderr=err, secs=time.time() - t0, cmd=cmd,
                     spec=dict(mode=mode, k=k, iters=iters, workloads=workloads))
 
 def evaluate(rep, h, plan, table, cls, cov, repeat=None):
@@ -171,6 +175,10 @@ def evaluate(rep, h, plan, table, cls, cov, repeat=None):
             rep.violation("C13:harness:sequential-run", "sequential reference run of %s failed rc=%s: %s" %
                           (wls, sq["rc"], sq["stderr"][-300:]), dict(run=sq["spec"], cmd=sq["cmd"]), found_input=False)
             continue
+        if sq.get("badclose"):
+            rep.violation("C13:fd:closed-twice", "%d close() call(s) on a descriptor that was not open (EBADF) in the single-threaded run of %s: "
+                          "a handle closed a descriptor twice; with another thread in between that is another handle's file" % (sq["badclose"], wls),
+                          dict(run=sq["spec"], cmd=sq["cmd"]), found_input=True)
         sreps, _ = parse_tsan(sq["stderr"])
         if sreps:
             rep.violation("C13:tsan-in-sequential-run", "ThreadSanitizer report in the single-threaded run: %s" % sreps[0]["text"][:300],
@@ -178,6 +186,10 @@ def evaluate(rep, h, plan, table, cls, cov, repeat=None):
         for k in ks:
             for _ in range((repeat or {}).get(name, 1)):
                 r = h.run("conc", k, iters, wls)
+                if r.get("badclose"):
+                    rep.violation("C13:fd:closed-twice", "%d close() call(s) hit a descriptor that was not open (EBADF) with %d threads running %s: "
+                                  "some handle closed a descriptor it no longer owned" % (r["badclose"], k, wls),
+                                  dict(run=r["spec"], cmd=r["cmd"]), found_input=True)
                 reps, fatal = parse_tsan(r["stderr"])
                 globs = sorted(set(x["glob"] for x in reps if x["glob"]))
                 rec = dict(mix=name, k=k, iters=iters, workloads=wls, rc=r["rc"], secs=round(r["secs"], 1),
